@@ -225,6 +225,10 @@ Proof. apply gen_correct_partial_stmt. Qed.
 (* a context for statements without calls: no callee writes anything (sout is None on every call) *)
 Definition cc_nocalls (denv : bstr -> option value) : callctx :=
   {| cc_denv := denv; cc_callee := fun _ _ => None; cc_jfn := fun _ _ _ => OutOfModel; cc_fuel := 0 |}.
+Lemma nocallee_go cf : go_callee_ok cf (fun _ _ => None) 0.
+Proof. intros name cenv text H. discriminate. Qed.
+Lemma nocallee_js ij jfn : js_callee_ok ij (fun _ _ => None) jfn.
+Proof. intros name cenv text jd ijv H. discriminate. Qed.
 Lemma cc_nocalls_ok cf o denv : cn_ok o -> o_msgs o = None -> envok denv -> callctx_ok cf o (cc_nocalls denv).
 Proof.
   intros Hcn Hnb Hd. split; [exact Hcn|]. split; [exact Hnb|]. split; [exact Hd|]. split.
